@@ -1460,6 +1460,9 @@ func (e *env) applyRequest(in *inputSpec, idx int, res *inResult) bool {
 		in.Data, note = deepRequest(in, e.goodToken)
 		defer func() { in.Data = nil }()
 		res.Deep++
+		if in.meta("pre") != "" {
+			res.DeepPre++
+		}
 	}
 	e.journalW(jEntry{Seq: in.Seq, Index: idx, Kind: in.Kind, Step: "apply", Note: note})
 	res.Observed = true
